@@ -42,9 +42,14 @@ def run(ctx):
                       "closing quote onto the quoted word - so reading `;` or `&` in the `quote just closed` state must end "
                       "the word (explored over parse_line's character loop), otherwise `echo 'a'; echo b` is re-rendered as "
                       "`echo 'a; echo b'` and runs one command where -c runs two")
+    ctx.rule("R16-6", "`||` written without blanks is one operator on the script path too: wherever the tokenizer emits the "
+                      "untagged token `|`, it has looked one character ahead and found no second `|` (and emits `||` "
+                      "otherwise) - a `|` token per character re-renders `echo a||echo b` as `echo a | | echo b`, which "
+                      "runs nothing, while -c (where the list splitter runs first) prints a")
     for crate in ctx.crates:
         funnel_rule(ctx, crate)
         operator_after_quote_rule(ctx, crate)
+        double_pipe_rule(ctx, crate, "R16-6")
         renderer_rule(ctx, crate)
         dq_roundtrip_rule(ctx, crate)
         from .. import ispace
@@ -284,3 +289,41 @@ def operator_after_quote_rule(ctx, crate):
                key="R16-5|%s|operator-after-quote|%s" % (b.path, X), crate=crate.kind,
                detail=None if ok else "the character joins the quoted word: a script line `cmd 'a'%s next` is re-rendered with the "
                "operator inside the quotes and `next` never runs as a command of its own" % (X if X == ";" else "&&"))
+
+
+def double_pipe_rule(ctx, crate, rule):
+    from .c02 import dom_facts
+    b = crate.fn("parsers::parser_line::parse_line")
+    if not ctx.require(b is not None, rule, "%s|anchor" % rule, "parsers::parser_line::parse_line not found"):
+        return
+    sites = []
+    for bb, t, c in b.calls():
+        if last_seg(c) == "push" and "Vec" in c:
+            a = b.call_args(bb)
+            if len(a) == 2:
+                v = b.expand_vars(strip_sites(a[1]))
+                if v[0] == "agg" and v[1] == "tuple" and len(v[2]) == 2:
+                    lits = [mir.const_str(x) for x in mir.subexprs(v[2][1]) if mir.const_str(x) is not None]
+                    tags = [mir.const_str(x) for x in mir.subexprs(v[2][0]) if mir.const_str(x) is not None]
+                    if "|" in lits and "" in tags:
+                        sites.append(bb)
+    if not ctx.require(len(sites) >= 2, rule, "%s|%s|sites" % (rule, b.path),
+                       "expected the places where parse_line emits an untagged `|` token, found %d" % len(sites), b.path):
+        return
+    k = 0
+    for bb in sorted(sites):
+        # a look-ahead at the next character (its bounds guard `i + 1 < count`, or the comparison of nth(i + 1) with
+        # `|` itself) has been evaluated before the push, and the `||` token is emitted on the other outcome
+        ok = False
+        for x in sorted(b.reachable):
+            es = b.switch_edges(x)
+            if len(es) < 2 or not b.dominates(x, bb) or x == bb:
+                continue
+            txt = render(strip_sites(es[0][1]))
+            if ("nth" in txt and "'|'" in txt) or ("Chars::count" in txt and "+ 1" in txt):
+                ok = True
+        ctx.ob(rule, b.path, "an untagged `|` token is emitted only after the next character was seen not to be `|`", ok,
+               key="%s|%s|single-pipe-lookahead#%d" % (rule, b.path, k), where=b.loc(bb), crate=crate.kind,
+               detail=None if ok else "`a||b` without blanks (or `'q'||b`) is tokenized as `|`, `|`: on the script path the line "
+               "is re-rendered with two pipes and nothing runs")
+        k += 1
